@@ -2,6 +2,7 @@
 (C04, C07, C08, C09, C11) on top of eng_proto."""
 import os
 import re
+import time
 import shutil
 import string
 import threading
@@ -603,6 +604,12 @@ def eval_c09(case, ctx):
         spec = proto.Spec(conf, ep.policies_of(banner))
         try:
             for i, ev in enumerate(case["events"]):
+                if ev[0] == "sleep":
+                    time.sleep(ev[1])
+                    out, in_use, stats = d.barrier()
+                    all_lines.extend(b.decode("latin-1") for b in out + stats)
+                    res.classes.add("requests_older_than_10s")
+                    continue
                 if ev[0] == "reload":
                     noisy = True
                     if ev[1] == "badlog":
@@ -911,7 +918,70 @@ def _c11_worker(args):
     return n, nt, fails, samples
 
 
+# ---------------------------------------------------------------------------
+# C09 enumerated part: requests that stay pending for more than ten seconds of real time (the statistics report
+# then lists them), 16 fixed scenarios run in parallel
+
+AGED_ADDRS = ["10.1.2.3", "2001:db8:0:0:0:0:0:1", "0:0:1:0:1:0:0:0", "ffff:ffff:ffff:ffff:ffff:ffff:ffff:ffff", "0::ffff:9.8.7.6", "1:0:0:2:0:0:0:3",
+              "255.255.255.255", "0:0:0:0:0:0:0:1"]
+
+
+def c09_aged_cases():
+    for i in range(16):
+        conf = {"modules": ["iauth_class", "iauth_xquery"], "services": [["alpha.ex", "dronecheck"], ["Beta.ex", "login"]], "timeout": 30 if i % 2 else 0,
+                "rules": [["r1", {"class": "c1"}]], "logs": [["*.>=info", "file:iauthd.log"]] if i % 4 else []}
+        ev = []
+        for k in range(1 + i % 4):
+            cid = [3, 700, 2000000000, 0][k]
+            ev.append(["C", cid, AGED_ADDRS[(i + k) % len(AGED_ADDRS)], [1, 65535, 6667, 0][(i + k) % 4]])
+            if (i + k) % 3 >= 1:
+                ev += [["N", cid, "host.example.org"], ["u", cid, "ident"], ["n", cid, "Nick%d" % k], ["U", cid, "user", "real name"]]
+            if (i + k) % 3 == 2:
+                ev.append(["P", cid, "+x! acct%d pw" % k])
+        ev.append(["sleep", 10.4])
+        ev += [["raw", "-1 ? stats"], ["raw", "-1 ? config"], ["raw", "-1 ? bogus"]]
+        for k in range(1 + i % 4):
+            cid = [3, 700, 2000000000, 0][k]
+            ev += [["X", cid, "alpha.ex", "OK", "cur"], ["X", cid, "Beta.ex", "OK acct%d:1" % k, "cur"], ["H", cid]]
+        ev.append(["raw", "-1 ? stats"])
+        yield {"conf": conf, "events": ev}
+
+
+def _c09_worker(args):
+    widx, nw = args
+    ctx = ep.make_context("C09", "quick", 300 + widx, {})
+    n = 0
+    fails, samples = [], []
+    try:
+        for i, case in enumerate(c09_aged_cases()):
+            if i % nw != widx:
+                continue
+            r = eval_c09(case, ctx)
+            n += 1
+            if i == 5:
+                samples.append(case)
+            for v in r.violations:
+                if v.pid == "C09" and len(fails) < 2:
+                    fails.append({"case": case, "sig": v.sig, "msg": v.msg})
+                    break
+    finally:
+        ep.close_context(ctx)
+    return n, n, fails, samples
+
+
 def extra_phase(pid, tier, seed):
+    if pid == "C09":
+        nw = vc.NCPU
+        with _mp2.get_context("fork").Pool(nw) as pool:
+            rs = pool.map(_c09_worker, [(w, nw) for w in range(nw)])
+        out = {"evaluations": 0, "nontrivial": 0, "fails": [], "classes": {}, "samples": [], "exhaustive_scope": None}
+        for n, nt, fails, samples in rs:
+            out["evaluations"] += n
+            out["nontrivial"] += nt
+            out["fails"].extend(fails)
+            out["samples"].extend(samples)
+        out["classes"]["requests_pending_over_10s_real_time"] = out["evaluations"]
+        return out
     if pid != "C11":
         return None
     nw = vc.NCPU
